@@ -10,8 +10,8 @@ package main
 //   c08.header <hex>             → ply.ReadHeader result          (Lean: model header parser)
 //   c08.holds.meaning <spec> <impl result>                        (Lean: impl result = meaning f)
 // plus one witness per finding on the unchanged tree under its own op name (expected false):
-//   c08.holds.uchar_scalar_ascii, c08.holds.mixed_type_group, c08.holds.ascii_wide_values,
-//   c08.holds.zero_faces_keep_vertices
+//   c08.holds.uchar_scalar_ascii_witness, c08.holds.mixed_type_group_witness, c08.holds.ascii_precision_witness,
+//   c08.holds.zero_faces_witness
 
 import (
 	"bytes"
@@ -513,13 +513,13 @@ func runC08(c *Ctx) {
 	// witnesses of findings on the unchanged tree (each under its own op name; expected false until fixed / listed)
 	xyz := []plySpecProp{{"x", "float", false}, {"y", "float", false}, {"z", "float", false}}
 	c.plySpecCase(plySpec{format: "ascii", vprops: append(append([]plySpecProp{}, xyz...), plySpecProp{"intensity", "uchar", false}),
-		verts: [][]float64{{1, 2, 3, 128}, {4, 5, 6, 255}}}, "c08.holds.uchar_scalar_ascii")
+		verts: [][]float64{{1, 2, 3, 128}, {4, 5, 6, 255}}}, "c08.holds.uchar_scalar_ascii_witness")
 	c.plySpecCase(plySpec{format: "le", vprops: []plySpecProp{{"x", "float", false}, {"y", "float", false}, {"z", "double", false}},
-		verts: [][]float64{{1, 2, 3}, {4, 5, 6}}}, "c08.holds.mixed_type_group")
+		verts: [][]float64{{1, 2, 3}, {4, 5, 6}}}, "c08.holds.mixed_type_group_witness")
 	c.plySpecCase(plySpec{format: "ascii", vprops: append(append([]plySpecProp{}, xyz...), plySpecProp{"id", "int", false}, plySpecProp{"w", "double", false}),
-		verts: [][]float64{{1, 2, 3, 16777217, 16777217.5}}}, "c08.holds.ascii_wide_values")
+		verts: [][]float64{{1, 2, 3, 16777217, 16777217.5}}}, "c08.holds.ascii_precision_witness")
 	c.plySpecCase(plySpec{format: "le", vprops: xyz, verts: [][]float64{{1, 2, 3}, {4, 5, 6}},
-		face: &plySpecFaceElem{cntTy: "uchar", idxTy: "int"}}, "c08.holds.zero_faces_keep_vertices")
+		face: &plySpecFaceElem{cntTy: "uchar", idxTy: "int"}}, "c08.holds.zero_faces_witness")
 	for k := 0; k < c.N; k++ {
 		c.plySpecCase(c.plySpecGen(), "c08.holds.meaning")
 	}
